@@ -3,8 +3,8 @@ CONSTANTS
   MaxN = 4
   MaxD = 2
   Depth = 2
-  Rich = FALSE
-  FormLevel = 1
+  Rich = TRUE
+  FormLevel = 2
 INVARIANT InvCoherent
 PROPERTY RefusalIsNoOp
 PROPERTY BondsFollowAtoms
